@@ -31,6 +31,12 @@ def check(tier, seed):
             return True
         return False
     jobs = vm_checks.sample_jobs() + vm_checks.family_jobs(seed, 1 if tier == "quick" else 6, [("7",), ("0",), ("3",), ("40",)])
+    # programs the type checker must reject (C06's hand negatives): when one is ACCEPTED it is an accepted program like any other and
+    # must run safely (rejected ones count as no-run)
+    negdir = os.path.join(VERIF, "corpus", "tc_neg")
+    for f in sorted(os.listdir(negdir)):
+        if f.endswith(".nev"):
+            jobs.append(dict(name="neg_" + f, file=os.path.join(negdir, f), cwd=os.path.join(negdir, "modules")))
     if tier == "thorough":
         jobs += vm_checks.sample_jobs(gc=1, mem=2000) + vm_checks.sample_jobs(gc=0, mem=300, stack=90) + vm_checks.family_jobs(seed + 1, 4, [("5",), ("200",)], gc=1, mem=1500, stack=400)
     res = vm_checks.sweep(h, rep, jobs, "c01", stats, on_result)
